@@ -52,6 +52,11 @@ func init() {
 			procs = []int{1, 2, 4, 16}
 		}
 		certs := corpus.sampleCerts(rng, nObj)
+		for i, zc := range certZoo() {
+			if zc.Class == "ku-eku" && (i%4 == 0 || tier() == "thorough") || zc.Class == "tld" || zc.Class == "related-names" {
+				certs = append(certs, zc.CorpusCert)
+			}
+		}
 		var filtered []lint.Registry
 		for len(filtered) < 3 {
 			if fr, e := g.Filter(randomFilterSpec(rng, names, srcs, false).opts()); e == nil && fr != g {
